@@ -42,6 +42,8 @@ def fresh(desc, base="v", run=None):
             return Opaque(("dropped", base))
         if tag == "dict_empty":
             return DictV({})
+        if tag == "clist":
+            return ListV([fresh(x, f"{base}[{i}]", run) for i, x in enumerate(desc[1])])
         if tag == "nd":
             if len(desc) > 2:
                 n = desc[2]
